@@ -13,15 +13,15 @@ namespace ParolModel
 def maxCp : Nat := 0x10FFFF
 
 /-- One atom of a delimiter in regex text: a character, possibly written with a backslash. -/
-structure Atom where
+structure DelimAtom where
   esc : Bool
   ch : Char
   deriving DecidableEq, Repr
 
-def Atom.text (a : Atom) : String := (if a.esc then "\\" else "") ++ a.ch.toString
+def DelimAtom.text (a : DelimAtom) : String := (if a.esc then "\\" else "") ++ a.ch.toString
 
 /-- `split_escaped_atoms`; `none` = "dangling escape". -/
-def splitEscapedAtoms : List Char → Option (List Atom)
+def splitEscapedAtoms : List Char → Option (List DelimAtom)
   | [] => some []
   | ['\\'] => none
   | '\\' :: c :: r => (splitEscapedAtoms r).map (⟨true, c⟩ :: ·)
@@ -29,7 +29,7 @@ def splitEscapedAtoms : List Char → Option (List Atom)
 
 /-- Lenient variant for the start delimiter (the code uses `s` verbatim): a trailing lone backslash
     is kept as a character so that rendering reproduces `s`. -/
-def splitLenient : List Char → List Atom
+def splitLenient : List Char → List DelimAtom
   | [] => []
   | ['\\'] => [⟨false, '\\'⟩]
   | '\\' :: c :: r => ⟨true, c⟩ :: splitLenient r
@@ -52,13 +52,13 @@ def escapeDefault (c : Char) : String :=
 def mustEscapeInBracketed (c : Char) : Bool := c = '-' || c = ']' || c = '^' || c = '\\'
 
 /-- `class_safe_atom`. -/
-def classSafeAtom (a : Atom) : String :=
+def classSafeAtom (a : DelimAtom) : String :=
   if mustEscapeInBracketed a.ch then "\\" ++ a.ch.toString else escapeDefault a.ch
 
 /-- Concrete syntax of the regexes `format_block_comment` emits. -/
 inductive Rx where
-  | lits (as : List Atom)        -- the atoms' texts, verbatim
-  | notIn (as : List Atom)       -- `[^…]` of class-safe atoms
+  | lits (as : List DelimAtom)        -- the atoms' texts, verbatim
+  | notIn (as : List DelimAtom)       -- `[^…]` of class-safe atoms
   | seq (a b : Rx)
   | alt (a b : Rx)               -- `a|b`
   | grp (a : Rx)                 -- `(a)`
@@ -66,7 +66,7 @@ inductive Rx where
   deriving Repr
 
 def Rx.render : Rx → String
-  | .lits as => String.join (as.map Atom.text)
+  | .lits as => String.join (as.map DelimAtom.text)
   | .notIn as => "[^" ++ String.join (as.map classSafeAtom) ++ "]"
   | .seq a b => a.render ++ b.render
   | .alt a b => a.render ++ "|" ++ b.render
@@ -111,8 +111,8 @@ def formatBlockComment (s e : String) : Except FmtErr Rx :=
   let sl := Rx.lits (splitLenient s.toList)
   if s == "/\\*" && e == "\\*/" then
     -- r"/\*/?([^/]|[^*]/)*\*/"
-    let sl_ : Atom := ⟨false, '/'⟩
-    let st : Atom := ⟨false, '*'⟩
+    let sl_ : DelimAtom := ⟨false, '/'⟩
+    let st : DelimAtom := ⟨false, '*'⟩
     .ok (.seq (.lits [sl_, ⟨true, '*'⟩]) (.seq (.opt (.lits [sl_]))
       (.seq (.star (.grp (.alt (.notIn [sl_]) (.seq (.notIn [st]) (.lits [sl_])))))
         (.lits [⟨true, '*'⟩, sl_]))))
@@ -169,7 +169,7 @@ def firstEndStep (s e : List Nat) (st x : Nat) : Nat :=
 
 def delimCuts (l : List Nat) : List Nat := l.flatMap fun c => [c, c + 1]
 
-def firstEndDfa (s e : List Nat) : Dfa where
+def firstEndDfa (s e : List Nat) : SpecDfa where
   aut := { step := firstEndStep s e
            acc := fun st => st == s.length + e.length
            cuts := fun _ => (maxCp + 1) :: delimCuts (s ++ e) }
@@ -264,13 +264,14 @@ def handleFmt : List String → Option String
   | _ => none
 
 def showRaw (w : List Nat) (tok : Nat) (re : Re) : String :=
-  match tokenizeSpec [{ terms := [⟨re, tok, none⟩], trans := [] }] w with
+  match tokenizeSpec [{ terms := [⟨re, tok, none⟩], trans := [] }] (scnr2Text w) with
   | none => "fuel-exhausted"
   | some ts => showToks w ts
 
 -- @handler blk handleBlk
 /-- `blk <key> <s-txt> <e-txt> <s> <e> <re> <text>` → tokens of the spec tokenizer for a scanner
-    whose only terminal is the (real, lowered) block comment regex `re`. -/
+    whose only terminal is the (real, lowered) block comment regex `re` (faithful to scnr2 0.5.2:
+    `scnr2Text`). -/
 def handleBlk : List String → Option String
   | [_, _, _, _, _, r, w] => do
     let r ← Re.dec r
